@@ -51,7 +51,11 @@ def from_max_simplices(SC):
     max_simplices = SC.edges.maximal()
     H = Hypergraph()
     H.add_nodes_from(SC.nodes)  # to keep node order and isolated nodes
-    H.add_edges_from([list(SC.edges.members(e)) for e in max_simplices])
+    # keyed by id: a bare list of member lists is ambiguous when the node labels are
+    # themselves iterables (e.g. tuples)
+    H.add_edges_from(
+        {i: list(SC.edges.members(e)) for i, e in enumerate(max_simplices)}
+    )
     return H
 
 
